@@ -6,4 +6,5 @@ CONSTANTS P = 6
           Modulus = 6
 INVARIANT Bound
 INVARIANT SwapSym
+INVARIANT SelfMatch
 INVARIANT Export
